@@ -13,6 +13,16 @@ Legs
                off the grid, on the tolerance boundary and one ulp beside the grid.
 Oracle: pbt.models.traces (closed forms in float64 over the event list, exact-rational
 time model with ambiguity band).
+
+Documented interpolation rules used for off-grid views (class docstrings / interpolate()):
+traces: older sample x exp(-elapsed/tau); EventReducer: older sample + elapsed;
+PassthroughReducer: older sample; EMAReducer / CAReducer: linear between the neighbours.
+Slots older than the first fold since a clear hold the documented fill (0; EventReducer: its
+initial value).  Inside the band (time within 8 ulp of the tolerance boundary, or verdicts of
+the exact and the working-dtype evaluation differ) the grid sample, either neighbouring
+interpolation and, for scalar times, the grid sample carried over one whole step (what
+select() yields when 1 + t/dt rounds to an integer) are all accepted and the read is not
+counted as decisive.
 """
 
 from __future__ import annotations
@@ -712,4 +722,7 @@ ASSUMPTIONS = [
     "view times are generated inside [-tolerance, (N-1)*dt] on exact rationals (documented valid range); "
     "tolerance < dt/2",
     "the duration setter of RecordReducer is not exercised (C14's subject)",
+    "a tolerance is only combined with numeric targets / numeric observations in the functional leg (torch "
+    "refuses subtraction with a bool operand: target=True with tolerance=0.5 raises NotImplementedError)",
+    "observations keep one shape between clear(keepshape=False) calls; a new shape is used only after such a clear",
 ]
